@@ -59,6 +59,7 @@ type c03Shape struct {
 	Flat    bool // all group handlers on one Group instead of nested groups
 	Late    bool // the last application middleware and the action are installed only after the application has served requests
 	Swap    bool // the application first serves with as many do-nothing middleware, which Handlers() then replaces by the real ones
+	Info    bool `json:",omitempty"` // handlers that write send an informational status (100+position) instead of 201+position
 	Head    bool `json:",omitempty"` // AutoHead is on and the request is a HEAD request (served by the chain registered alongside the GET route)
 }
 
@@ -71,7 +72,7 @@ func (s c03Shape) n() int {
 }
 
 func (s c03Shape) String() string {
-	return fmt.Sprintf("mw=%d group=%d route=%d action=%v flat=%v late=%v swap=%v autohead=%v", s.M, s.G, s.R, s.Action, s.Flat, s.Late, s.Swap, s.Head)
+	return fmt.Sprintf("mw=%d group=%d route=%d action=%v flat=%v late=%v swap=%v autohead=%v informational-statuses=%v", s.M, s.G, s.R, s.Action, s.Flat, s.Late, s.Swap, s.Head, s.Info)
 }
 
 type c03Ev struct {
@@ -86,6 +87,7 @@ type c03World struct {
 	f      *flamego.Flame
 	path   string
 	method string
+	base   int // status written by position i is base+i
 	prog   []c03Beh
 	trace  []c03Ev
 	cancel gocontext.CancelFunc
@@ -102,7 +104,7 @@ func (w *c03World) body(i int, c flamego.Context) (ret string) {
 			w.trace = append(w.trace, c03Ev{K: 'R', I: i})
 		case 'W':
 			w.trace = append(w.trace, c03Ev{K: 'W', I: i})
-			c.ResponseWriter().WriteHeader(201 + i)
+			c.ResponseWriter().WriteHeader(w.base + i)
 		case 'C':
 			w.trace = append(w.trace, c03Ev{K: 'C', I: i})
 			w.cancel()
@@ -133,7 +135,10 @@ func (w *c03World) mk(i int, returnsString bool) flamego.Handler {
 }
 
 func c03Build(s c03Shape, strMask int) *c03World {
-	w := &c03World{f: flamego.NewWithLogger(io.Discard), method: "GET"}
+	w := &c03World{f: flamego.NewWithLogger(io.Discard), method: "GET", base: 201}
+	if s.Info {
+		w.base = 100
+	}
 	if s.Head {
 		w.f.AutoHead(true)
 		w.method = "HEAD"
@@ -230,6 +235,10 @@ func c03Build(s c03Shape, strMask int) *c03World {
 
 // c03Accept is the trace acceptor: returns "" when the trace is one the statement allows.
 func c03Accept(total int, tr []c03Ev, gotStatus int, gotBody string) (bad, kind string) {
+	return c03AcceptBase(total, tr, gotStatus, gotBody, 201)
+}
+
+func c03AcceptBase(total int, tr []c03Ev, gotStatus int, gotBody string, base int) (bad, kind string) {
 	type frame struct {
 		next bool // a Next() call frame
 		id   int
@@ -307,7 +316,7 @@ func c03Accept(total int, tr []c03Ev, gotStatus int, gotBody string) (bad, kind 
 			switch ev.K {
 			case 'W':
 				if !written {
-					written, wantStatus = true, 201+ev.I
+					written, wantStatus = true, base+ev.I
 				}
 			case 'C':
 				cancelled = true
@@ -418,7 +427,7 @@ func c03Judge(w *c03World, s c03Shape, prog []c03Beh) (bad, kind string) {
 		}
 		body = c03ImpliedBody(w.trace)
 	}
-	b, k := c03Accept(s.n(), w.trace, status, body)
+	b, k := c03AcceptBase(s.n(), w.trace, status, body, w.base)
 	if b != "" {
 		return b + "; trace: " + c03TraceString(w.trace), k
 	}
@@ -447,6 +456,7 @@ func c03Shapes(maxN int, thorough bool) []c03Shape {
 						out = append(out, c03Shape{M: m, G: g, R: r, Action: act, Swap: true})
 					}
 					if thorough || n <= 3 {
+						out = append(out, c03Shape{M: m, G: g, R: r, Action: act, Info: true})
 						out = append(out, c03Shape{M: m, G: g, R: r, Action: act, Head: true})
 						if g >= 2 {
 							out = append(out, c03Shape{M: m, G: g, R: r, Action: act, Flat: true, Head: true})
